@@ -128,3 +128,15 @@ Example C12_operator_spacing_example :
         parse_op [97; 32; 45; 62; 32; 98; 32; 44; 32; 40; 32; 99; 32; 43; 32; 100; 32; 41]%N with
   | Ok t', Ok t => erase t' = erase t | _, _ => False end.
 Proof. vm_compute. reflexivity. Qed.
+
+(* Re-printing, bounded.  For EVERY sequence of at most 5 tokens over the alphabet  a b 1 0 ( ) [ ] ... -> , + space |  (579 195
+   sequences): if the model accepts it, then either its printed form contains '{' or six dots - the two shapes of known finding F5 -
+   or the printed form is accepted again with the same tree up to positions, anonymous-axis identifiers and "((x + y))" =
+   "(x + y)".  The domain is finite; the proof evaluates the model on all of it inside Coq (Proofs/ReprintBounded.v) and lifts
+   the boolean.  Props/C12Deep.v (thorough tier) holds the same statement for 6 tokens. *)
+From EinxV Require Import Proofs.ReprintBounded.
+Theorem C12_reprint_is_stable_up_to_5_tokens :
+  forall toks : list (list N), (List.length toks <= 5)%nat -> Forall (fun t => In t alphabet) toks ->
+  reprint_ok (concat toks) = true.
+Proof. apply reprint_bounded. vm_compute. reflexivity. Qed.
+Print Assumptions C12_reprint_is_stable_up_to_5_tokens.
